@@ -231,11 +231,7 @@ where
         self.nodes.iter()
     }
 
-    pub fn to_dot(&self) -> String
-    where
-        N: Display,
-        E: Display,
-    {
+    pub fn to_dot(&self) -> String {
         let mut s = String::new();
         s.push_str("digraph {\n");
         for (u_key, node) in self.iter() {
